@@ -21,6 +21,7 @@ from ..cfg import cfg_of
 from ..dataflow import Resolver as ExprResolver
 from ..dataflow import expr_leaves, flow_of, select_path
 from ..engine import Context, Reporter
+from ..fresh import fresh_copy_source
 from ..model import AnalysisError, FuncInfo, dotted, norm_text, walk_no_nested
 from ..util import call_arg, calls_in, calls_in_node, const_value, split_cond, unparse
 from .c07 import bounds_helpers
@@ -404,9 +405,8 @@ def rule_b(ctx: Context, R: Reporter, bmap: FuncInfo):
     copy_ok = False
     for cnode in copies:
         v = cnode.stmt.value
-        if isinstance(v, ast.Call) and ((isinstance(v.func, ast.Attribute) and v.func.attr == "copy" and isinstance(v.func.value, ast.Name) and v.func.value.id == inparam) or
-                                        ((ctx.res.external_name(bmap, v) or "") in ("numpy.array", "numpy.copy") and v.args and isinstance(v.args[0], ast.Name) and v.args[0].id == inparam and
-                                         not any(k.arg == "copy" and const_value(k.value) is False for k in v.keywords))):
+        src_ = fresh_copy_source(lambda c_: ctx.res.external_name(bmap, c_), v)
+        if isinstance(src_, ast.Name) and src_.id == inparam:
             copy_ok = True
     stores = [n for n in cfg.stmt_nodes() if n.kind == "stmt" and isinstance(n.stmt, (ast.Assign, ast.AugAssign)) and
               isinstance((n.stmt.targets[0] if isinstance(n.stmt, ast.Assign) else n.stmt.target), ast.Subscript)]
@@ -453,7 +453,7 @@ def rule_b(ctx: Context, R: Reporter, bmap: FuncInfo):
             whole.append((n, st_))
         if isinstance(st_, ast.Assign) and isinstance(st_.targets[0], ast.Name) and st_.targets[0].id == uparam and n in copies and n is not first_copy:
             v = st_.value
-            is_copy = isinstance(v, ast.Call) and ((isinstance(v.func, ast.Attribute) and v.func.attr == "copy") or (ctx.res.external_name(bmap, v) or "") in ("numpy.array", "numpy.copy"))
+            is_copy = fresh_copy_source(lambda c_: ctx.res.external_name(bmap, c_), v) is not None
             if not is_copy:
                 whole.append((n, st_))
         if isinstance(st_, (ast.Assign, ast.AugAssign)):
@@ -948,6 +948,19 @@ def variants():
         Variant("d-shifted-remainder", "bad", replace_stmt(mc, f, "remainder = val - n_reflect", "remainder = (val + 1.0) - (n_reflect + 1.0)"), ["C16.d"], quick=True),
         Variant("a-astype-int", "bad", replace_expr(mc, f, "np.floor(val)", "np.floor(val).astype(int)"), ["C16.a"], quick=True),
         Variant("b-no-copy", "bad", delete_stmt(mc, f, "u = u.copy()"), ["C16.b"], quick=True),
+        # what counts as the fresh working copy (aliases of the caller's array must be reported)
+        Variant("b-benign-working-copy-np-array", "benign", replace_stmt(mc, f, "u = u.copy()", "u = np.array(u)")),
+        Variant("b-benign-working-copy-np-copy", "benign", replace_stmt(mc, f, "u = u.copy()", "u = np.copy(u)")),
+        Variant("b-benign-working-copy-np-array-copy-true", "benign", replace_stmt(mc, f, "u = u.copy()", "u = np.array(u, copy=True)")),
+        Variant("b-benign-working-copy-astype-default", "benign", replace_stmt(mc, f, "u = u.copy()", "u = u.astype(float)")),
+        Variant("b-working-copy-is-alias-np-asarray", "bad", replace_stmt(mc, f, "u = u.copy()", "u = np.asarray(u)"), ["C16.b"]),
+        Variant("b-working-copy-is-alias-np-array-copy-false", "bad", replace_stmt(mc, f, "u = u.copy()", "u = np.array(u, copy=False)"), ["C16.b"]),
+        Variant("b-working-copy-is-alias-view", "bad", replace_stmt(mc, f, "u = u.copy()", "u = u.view()"), ["C16.b"]),
+        Variant("b-working-copy-is-alias-ellipsis-slice", "bad", replace_stmt(mc, f, "u = u.copy()", "u = u[...]"), ["C16.b"]),
+        Variant("b-working-copy-is-alias-reshape-same", "bad", replace_stmt(mc, f, "u = u.copy()", "u = u.reshape(u.shape)"), ["C16.b"]),
+        Variant("b-working-copy-is-alias-astype-copy-false", "bad", replace_stmt(mc, f, "u = u.copy()", "u = u.astype(u.dtype, copy=False)"), ["C16.b"]),
+        Variant("b-working-copy-is-alias-ascontiguous", "bad", replace_stmt(mc, f, "u = u.copy()", "u = np.ascontiguousarray(u)"), ["C16.b"]),
+        Variant("b-working-copy-is-alias-atleast-1d", "bad", replace_stmt(mc, f, "u = u.copy()", "u = np.atleast_1d(u)"), ["C16.b"]),
         Variant("b-row-index", "bad", replace_stmt(mc, f, "u[..., idx] = u[..., idx] % 1.0", "u[idx] = u[idx] % 1.0"), ["C16.b", "ANALYSIS-ERROR"]),
         Variant("c-one-sided-1d", "bad", replace_expr(mc, g, "np.all(u_strict >= 0) and np.all(u_strict <= 1)", "np.all(u_strict <= 1)"), ["C16.c"], quick=True),
         Variant("c-open-upper-2d", "bad", replace_expr(mc, g, "np.all(u_strict <= 1, axis=-1)", "np.all(u_strict < 1, axis=-1)"), ["C16.c"]),
